@@ -32,7 +32,7 @@ def run(ctx):
     # transition cover: one script per transition of the abstract state graph
     scripts = ctx.tlc_gen("MC_RaftLog", GEN.format(maxi=4 if q else 5, maxt=2 if q else 3, maxh=5 if q else 6, legacy="FALSE",
                                                    view="VIEW View", emit="ACTION_CONSTRAINT Emit"),
-                          "cover", workers=8)
+                          "cover", workers=8, coverage=True)
     # sequence-exhaustive: every operation sequence up to a depth (no VIEW)
     scripts += ctx.tlc_gen("MC_RaftLog", GEN.format(maxi=3, maxt=2, maxh=3 if q else 4, legacy="FALSE",
                                                     view="", emit="ACTION_CONSTRAINT EmitLeaf"),
